@@ -1152,8 +1152,15 @@ fn file_check(dir: &Path, list: &[Rec], format: Format, wrap: Option<usize>, cc:
         // writers; capacity None = to_file.  The first call creates the file, the later ones find
         // the previous output there, which must be replaced, not extended
         let _ = std::fs::remove_file(&path);
-        for cap in [Some(1usize), None, Some(7), Some(64)] {
+        for (round, cap) in [Some(1usize), None, Some(7), Some(64), None, Some(3)].into_iter().enumerate() {
             let name = if cap.is_none() { "to_file" } else { "to_file_with_capacity" };
+            if round >= 2 {
+                // the path already holds a LONGER file: it must be replaced, not overwritten in
+                // place or extended (self-contained: does not depend on earlier cases)
+                let mut stale = full.clone();
+                stale.extend_from_slice(b"@stale\nACGT\n+\nIIII\n>stale\nACGT\n");
+                std::fs::write(&path, &stale).expect("scratch file is writable");
+            }
             let written: Result<bool, String> = match format {
                 Format::Fastq => match cap {
                     None => fastq::Writer::to_file(&path),
@@ -1556,7 +1563,54 @@ fn record_api_unit(ctx: &mut Ctx) {
         }
     }
     ctx.case(|| json!({"kind": "fastx-misc"}), |cc| fastx_misc_check(cc));
+    for len in LONG_RECORD_LENS {
+        for (format, wrap) in [(Format::Fastq, None), (Format::Fasta, None), (Format::Fasta, Some(60usize)), (Format::Fasta, Some(65_536))] {
+            ctx.case(|| json!({"kind": "long-record", "len": len, "format": format, "wrap": wrap}), |cc| long_record_check(len, format, wrap, cc));
+        }
+    }
 }
+
+/// one record whose sequence is `len` symbols long (around the default buffer size 8192 and
+/// around 2^16), followed by two ordinary records: lines longer than every internal buffer, and
+/// whatever the reader carries over from the long record to the next one
+fn long_record_check(len: usize, format: Format, wrap: Option<usize>, cc: &mut CaseCtx) {
+    cc.nontrivial();
+    let seq: String = (0..len).map(|i| b"ACGTN"[(i * 7 + i / 5) % 5] as char).collect();
+    let qual: String = (0..len).map(|i| (b'!' + (i % 60) as u8) as char).collect();
+    let list = vec![
+        Rec { id: "long".into(), desc: Some("first record".into()), seq, qual },
+        Rec { id: "next".into(), desc: None, seq: "ACGT".into(), qual: "II@I".into() },
+        Rec { id: "last".into(), desc: Some("d".into()), seq: "NN".into(), qual: "!~".into() },
+    ];
+    let r = guard(|| {
+        let bytes = write_bytes(&list, format, wrap, false);
+        (bytes.len(), parse_new(&bytes, format, list.len() + 3), parse(&bytes, format, 7, &Schedule::Uniform(4096), Api::ReadInto, list.len() + 3, &[]))
+    });
+    let f = fname(format);
+    match r {
+        Err(msg) => cc.violation(format!("C11/{}/long-record/panic", f), msg),
+        Ok((n, got, got2)) => {
+            cc.outcome(&(n, got.len()));
+            let want: Parsed = list.iter().map(|r| Ok(expect(r, format))).collect();
+            let brief = |p: &Parsed| -> Vec<String> {
+                p.iter().map(|x| match x { Ok(r) => format!("Ok(id={} seq_len={} qual_len={})", r.id, r.seq.len(), r.qual.len()), Err(e) => format!("Err({})", e) }).collect()
+            };
+            if got != want {
+                cc.violation(format!("C11/{}/long-record/records-differ", f), format!("sequence of {} symbols, wrap {:?}: read back {:?}", len, wrap, brief(&got)));
+            }
+            match got2 {
+                Err(msg) => cc.violation(format!("C11/{}/long-record/panic", f), msg),
+                Ok(g2) => {
+                    if g2 != want {
+                        cc.violation(format!("C11/{}/long-record/read/records-differ", f), format!("sequence of {} symbols, wrap {:?}, read() through a 7-byte BufReader: {:?}", len, wrap, brief(&g2)));
+                    }
+                }
+            }
+        }
+    }
+}
+
+const LONG_RECORD_LENS: [usize; 9] = [8191, 8192, 8193, 16384, 65535, 65536, 65537, 70_000, 200_000];
 
 /// a spread of singles over the whole alphabet (stride coprime to its radices) plus pairs and a triple
 fn few_lists(single_stride: usize, pair_stride: usize) -> Vec<Vec<Rec>> {
@@ -1691,6 +1745,12 @@ fn replay_ext(case: &Value, ctx: &mut Ctx) -> bool {
             ctx.case(|| case.clone(), |cc| fastx_empty_check(cap, kind_first, cc));
         }
         "fastx-misc" => ctx.case(|| case.clone(), |cc| fastx_misc_check(cc)),
+        "long-record" => {
+            let len = (case["len"].as_u64().unwrap_or(1) as usize).clamp(1, 5_000_000);
+            let format: Format = serde_json::from_value(case["format"].clone()).unwrap();
+            let wrap: Option<usize> = serde_json::from_value(case["wrap"].clone()).unwrap();
+            ctx.case(|| case.clone(), |cc| long_record_check(len, format, wrap, cc));
+        }
         "file" => {
             let list = list();
             let format: Format = serde_json::from_value(case["format"].clone()).unwrap();
